@@ -241,6 +241,8 @@ class REPEX_state:
             self.swap(traj_idx, ens)
             self.lock(ens)
             trajs.append(self._trajs[ens])
+        # keep the re-issued job on record for the next restart file
+        self.locked.append((list(enss), list(trajs0)))
         if self.printing():
             self.print_pick(tuple(enss), tuple(trajs0), self.cworker)
         picked = {}
